@@ -55,9 +55,6 @@ RESIDUAL = {
     ("flussab::deferred_reader::DeferredReader::advance_with_buf", "Sub", "pos_in_buf"): "pos_in_buf was just increased by n by advance(n) (C02-R2)",
     ("flussab::deferred_reader::DeferredReader::advance_unchecked", "Sub", "valid_len"): "unsafe fn: the caller guarantees n <= buf_len() (debug-asserted)",
     ("flussab::text::LineReader::give_up_at_cold", "Sub", "position"): "position >= line_start: decided by C08-R1 (mark set on the current line) and C08-R2 (line start never ahead of the cursor)",
-    ("flussab_aiger::token::remaining_file_content", "Sub", "slice::len(bytes)"): "last_line_bytes is a position() inside bytes, so it is < bytes.len()",
-    ("flussab_aiger::token::remaining_file_content", "Sub", "(slice::len(bytes) Sub last_line_bytes)"): "bytes.len() - last_line_bytes >= 1 (position() < len)",
-    ("flussab_aiger::token::remaining_file_content", "Sub", "valid_up_to"): "advance <= bytes.len() and bytes was cut to valid_up_to bytes",
     ("flussab::text::swar_ascii_digits_u64_le", "DivisionByZero", ""): "division by the constant 8",
     ("flussab_btor2::token::ascii_lowercase_u64", "DivisionByZero", ""): "division by the constant 8",
     ("flussab::deferred_reader::DeferredReader::request_more", "DivisionByZero", ""): "division by the constant 2",
@@ -209,6 +206,33 @@ def counter_bound(f, bi, e):
     return (k * bound, "%s starts at %d, steps by 1, and continues only while %s" % (sy.show(("l", cl)), inits[0], " / ".join(sorted(set(why)))))
 
 
+def scan_index_discharge(f, bi, a, b):
+    """a - b where the bound follows from "an index found by scanning a slice lies inside that slice" (recomputed from
+    the code: which slice was scanned, how long it is)"""
+    from . import scanidx as SI
+    sy = sym(f)
+    # len(S) - q, q found in S
+    s = SI.len_of(f, a)
+    q = SI.scanned_slice(f, b)
+    if s is not None and q is not None and SI.strip(s) == SI.strip(q[0]):
+        return "scan-index", "b is an index found by scanning the slice whose length is a: b < a"
+    # (len(S) - q) - 1, q found in S
+    if b == ("c", 1) and SI.at_most_len(f, a) is not None:
+        return "scan-index", "a is len(S) - q or p + 1 for an index found in S: a >= 1"
+    # k - b, where 1 <= b <= len(S) and S = &x[..k] with k unchanged since the cut
+    s = SI.at_most_len(f, b)
+    if s is not None:
+        cut = SI.slice_cut(f, s)
+        if cut is not None:
+            cut_bb, k = cut
+            ka, kk = SI.peel(sy, a), SI.peel(sy, k)
+            if ka == kk and ka[0] == "l" and SI.unchanged_between(f, ka[1], cut_bb, bi):
+                return "scan-index", "b <= len(S) and S was cut to a bytes (`&x[..a]`, a unchanged since)"
+            if ka == kk and ka[0] != "l":
+                return "scan-index", "b <= len(S) and S was cut to a bytes"
+    return None
+
+
 def discharge(facts, tn, f, bi, t, guard_rows):
     sy = sym(f)
     op = t.get("op", t["msg"])
@@ -268,7 +292,7 @@ def discharge(facts, tn, f, bi, t, guard_rows):
             return "const-minus", "MAX - x cannot underflow"
         if a[0] == "c?" and "MAX" in a[1]:
             return "const-minus", "MAX constant minus a constant"
-        g = guards.holds(f, bi, lambda fa: guards.cmp_matches(fa, "Le", lambda x: strip_bb(x) == strip_bb(b) or strip_bb(origin_deep(sy, x)) == strip_bb(origin_deep(sy, b)), lambda x: strip_bb(x) == strip_bb(a)))
+        g = guards.holds(f, bi, lambda fa: guards.cmp_implies(fa, "Le", lambda x: strip_bb(x) == strip_bb(b) or strip_bb(origin_deep(sy, x)) == strip_bb(origin_deep(sy, b)), lambda x: strip_bb(x) == strip_bb(a)))
         if g:
             return "guard", "a - b behind %s" % guards.show_fact(f, g[1])
         pc = payload_call(sy, b)
@@ -280,6 +304,10 @@ def discharge(facts, tn, f, bi, t, guard_rows):
             lim = pc[3][2]
             if lim[0] == "bin" and lim[1] == "Sub" and lim[2][0] == "c" and lim[2][1] >= (1 << 63) - 1 and strip_bb(lim[3]) == strip_bb(a):
                 return "bounded-callee", "b <= MAX - a by the limit passed to header_field"
+    if op == "Sub" and b is not None:
+        r = scan_index_discharge(f, bi, a, b)
+        if r is not None:
+            return r
     # residual table
     shown = sy.show(a)
     for (rf, rop, rpre), why in RESIDUAL.items():
